@@ -11,7 +11,10 @@ from symx.core import fresh_real
 
 
 class Clock:
-    def __init__(self, prefix="dt"):
+    def __init__(self, prefix="dt", wall_steps=False):
+        # wall_steps: the wall clock (time.time) may be stepped by any amount, forwards or backwards, between two reads (NTP correction,
+        # manual change); only the monotonic clock (perf_counter) never goes back. Durations must not be taken from the wall clock.
+        self.wall_steps = wall_steps
         self.now = fresh_real("%s_t0" % prefix, 0)
         self.wall = fresh_real("%s_wall0" % prefix, 0)
         self.t0, self.wall0 = self.now, self.wall  # the two clocks advance together: wall - wall0 == now - t0
@@ -25,6 +28,8 @@ class Clock:
         self.n += 1
         self.now = self.now + d
         self.wall = self.wall + d
+        if self.wall_steps:
+            self.wall = self.wall + fresh_real("%s_wall_clock_step%d" % (self.prefix, self.n))
         return self.now
 
     def perf_counter(self):
